@@ -244,7 +244,7 @@ struct Pool {
             break;
         case 13:
             if (i < N) {
-                { va::LibScope ls; (*slots[i].box)->clear(); }
+                { va::LibScope ls; if (r.chance(1, 3)) **slots[i].box = ST::null_t(); else (*slots[i].box)->clear(); }
                 slots[i].shadow.clear();
                 snprintf(desc, sizeof(desc), "s%zu.clear()", i);
                 vrt::count("op.clear");
@@ -282,6 +282,18 @@ struct Pool {
                 (void)sink;
                 BS s = a.to_std_string();
                 { va::HarnessScope hs; if (s.size() != a.size()) fail("to_std_string-size", i, "to_std_string().size() != size()"); }
+                {
+                    // small accessors
+                    va::HarnessScope hs;
+                    static const T subst[2] = {T('?'), T()};
+                    if (a.c_str(subst) != (a.empty() ? subst : a.data())) fail("c_str(substitute)", i, "");
+                    auto v = a.view();
+                    if (v.size() != a.size() || v.data() != a.data()) fail("view()", i, "");
+                    if (a.size() >= 2) { auto w = a.view(1, a.size() - 2); if (w.size() != a.size() - 2 || w.data() != a.data() + 1) fail("view(start,length)", i, ""); auto x = a.view(1); if (x.size() != a.size() - 1) fail("view(start)", i, ""); }
+                    if (B::strlen(a.data()) > a.size()) fail("strlen-beyond-size", i, "");
+                    if (a.size() && (a.at(a.size() - 1) != a[a.size() - 1] || a.front() != a[0])) fail("at/front", i, "");
+                    if (a.cbegin() != a.data() || a.cend() != a.data() + a.size()) fail("cbegin/cend", i, "");
+                }
                 size_t cnt = 0;
                 for (auto it = a.begin(); it != a.end(); ++it) ++cnt;
                 for (auto it = a.rbegin(); it != a.rend(); ++it) ++cnt;
